@@ -104,6 +104,31 @@ def run(ctx):
     cnt = ev.heap.get((SELF, "n_likelihood_evaluations"))
     want = T.add(self_attr("n_likelihood_evaluations"), T.app("len", s))
     want2 = T.add(self_attr("n_likelihood_evaluations"), T.app("len", ("attr", s, "x")))
+    # ---- the counting wrapper is a *method* of the sampler: an instance attribute of the same name stored on a sampler object shadows it, and every
+    #      later likelihood call of that sampler goes to the raw callable, uncounted
+    shadows = []
+    n_st = 0
+    for f_ in repo.all_functions():
+        for n_ in walk_no_nested(f_.node):
+            tg_, recv_ = None, None
+            if isinstance(n_, (ast.Assign, ast.AugAssign, ast.AnnAssign)):
+                for t_ in (n_.targets if isinstance(n_, ast.Assign) else [n_.target]):
+                    if isinstance(t_, ast.Attribute) and t_.attr == "log_likelihood":
+                        tg_, recv_ = t_, t_.value
+            elif isinstance(n_, ast.Call) and isinstance(n_.func, ast.Name) and n_.func.id == "setattr" and len(n_.args) == 3 and isinstance(n_.args[1], ast.Constant) and n_.args[1].value == "log_likelihood":
+                tg_, recv_ = n_, n_.args[0]
+            if recv_ is None:
+                continue
+            n_st += 1
+            txt = ast.unparse(recv_).lower()
+            on_self_sampler = isinstance(recv_, ast.Name) and f_.cls is not None and f_.params and recv_.id == f_.params[0] and base in f_.cls.mro()
+            if "sampler" in txt or on_self_sampler:
+                shadows.append((f_, n_, ast.unparse(recv_)))
+    ctx.count("stores_to_an_attribute_named_log_likelihood", n_st)
+    ctx.decide(not shadows, "C17.cnt", "package", loc_of(shadows[0][0], shadows[0][1]) if shadows else "src/aspire",
+               "no code stores an instance attribute `log_likelihood` on a sampler object (the counting wrapper stays the only path to the user's likelihood)",
+               (f"{shadows[0][0].ident} assigns `{shadows[0][2]}.log_likelihood`: on a sampler object that instance attribute shadows the counting wrapper method, so every later "
+                "evaluation through that sampler calls the raw callable and is never counted (nor preceded by the wrapper's bookkeeping)") if shadows else "", disc="shadow")
     # ---- the two callables reach the sampler under their own names: through every constructor chain (sampler classes, the front end's
     #      keyword hand-over) a positional `log_likelihood` / `log_prior` lands in the parameter of the same name
     from .common import positional_name_mismatches
@@ -203,6 +228,10 @@ MUTANTS += [
     M("base sampler constructor lists the prior first; one positional super().__init__ is left behind", "src/aspire/samplers/smc/base.py",
       "log_likelihood: Callable,\n        log_prior: Callable,\n        dims: int,\n        prior_flow: Flow,\n        xp: Callable,\n        dtype: Any | str | None = None,\n        parameters: list[str] | None = None,\n        rng: np.random.Generator | None = None,\n        preconditioning_transform: Callable | None = None,\n    ):\n        super().__init__(\n            log_likelihood=log_likelihood,",
       "log_prior: Callable,\n        log_likelihood: Callable,\n        dims: int,\n        prior_flow: Flow,\n        xp: Callable,\n        dtype: Any | str | None = None,\n        parameters: list[str] | None = None,\n        rng: np.random.Generator | None = None,\n        preconditioning_transform: Callable | None = None,\n    ):\n        super().__init__(\n            log_likelihood=log_likelihood,", "C17.args"),
+]
+MUTANTS += [
+    M("leaving the pool context re-points the live sampler at the serial callables", "src/aspire/utils.py", "self.aspire_instance.log_prior = self.original_log_prior\n        if self.close_pool:",
+      "self.aspire_instance.log_prior = self.original_log_prior\n        sampler = getattr(self.aspire_instance, \"sampler\", None)\n        if sampler is not None:\n            sampler.log_likelihood = self.original_log_likelihood\n        if self.close_pool:", "C17.cnt"),
 ]
 NEUTRALS = [
     M("positional constructor call rewritten with keywords", "src/aspire/samplers/smc/base.py", "super().__init__(\n            log_likelihood,\n            log_prior,\n            dims,",
